@@ -881,6 +881,20 @@ func (env *Env) call(e *Expr) SV {
 		// a callee's own record, or no such call on this path: an unknown value (an equality
 		// with it is an unconstrained boolean, so a clause relying on it cannot be proved)
 		return SV{T: nil, Ty: nil}
+	case "when", "whenFirst":
+		// when("f"): the activation's call clock at its last call of f (ordering of calls);
+		// whenFirst("f"): at its first call of f
+		if len(e.Args) != 1 || e.Args[0].Kind != "str" {
+			return env.fail("%s needs a function name", e.Name)
+		}
+		pre := ghWhen
+		if e.Name == "whenFirst" {
+			pre = ghFirst
+		}
+		if t, ok := st.ghost[env.ghostKey(pre+e.Args[0].Lit)]; ok {
+			return SV{T: t, Ty: it}
+		}
+		return SV{T: nil, Ty: nil}
 	case "returned":
 		// returned("f", i): i-th result of the last call of f
 		if len(e.Args) < 2 || e.Args[0].Kind != "str" {
@@ -892,6 +906,13 @@ func (env *Env) call(e *Expr) SV {
 			return SV{T: t, Ty: x.argTypes[k]}
 		}
 		return SV{T: nil, Ty: nil}
+	case "plain":
+		// plain(s): s carries no zero-width control sequences, so runewidth measures it truly
+		if arg(0).T == nil {
+			return SV{T: x.freshVar("norecord", SBool), Ty: bt}
+		}
+		theU.DeclFunc("plain", SBool, SStr)
+		return SV{T: App("plain", SBool, arg(0).T), Ty: bt}
 	case "typeof":
 		return SV{T: App("typeof", SInt, arg(0).T), Ty: it}
 	case "hasType":
@@ -944,6 +965,9 @@ func (env *Env) call(e *Expr) SV {
 		// function captured (by reference) under that name
 		if len(e.Args) != 2 || e.Args[1].Kind != "str" {
 			return env.fail("bound needs a closure and a variable name")
+		}
+		if arg(0).T == nil {
+			return SV{T: nil, Ty: nil} // of an unknown call record: unknown
 		}
 		// the value may or may not be (provably) one of the closures made on this path: an
 		// if-then-else over the candidates, unconstrained otherwise
@@ -1060,6 +1084,9 @@ func (env *Env) call(e *Expr) SV {
 		}
 		return SV{T: app, Ty: rt}
 	case "fnof":
+		if arg(0).T == nil {
+			return SV{T: nil, Ty: nil} // of an unknown call record: unknown
+		}
 		theU.DeclFunc("fnof", SInt, SInt)
 		return SV{T: App("fnof", SInt, arg(0).T), Ty: it}
 	case "fn":
